@@ -99,17 +99,19 @@ struct Cfg {
     pb: Option<usize>,
     /// Timeout answers per worker queue before `recv_timeout` blocks
     to: usize,
+    /// the pool carries a packet filter that admits one of the two connections only
+    flt: bool,
 }
 impl Cfg {
     fn to_s(&self) -> String {
-        format!("{}:{}:{}:{}:{}:{}:{}", self.prop, self.pool, self.workers, self.cap, self.batch, self.pb.map(|p| p.to_string()).unwrap_or("none".into()), self.to)
+        format!("{}:{}:{}:{}:{}:{}:{}:{}", self.prop, self.pool, self.workers, self.cap, self.batch, self.pb.map(|p| p.to_string()).unwrap_or("none".into()), self.to, self.flt as u8)
     }
     fn parse(s: &str) -> Option<Cfg> {
         let p: Vec<&str> = s.split(':').collect();
-        if p.len() != 7 {
+        if p.len() != 8 {
             return None;
         }
-        Some(Cfg { prop: p[0].into(), pool: p[1].into(), workers: p[2].parse().ok()?, cap: p[3].parse().ok()?, batch: p[4].parse().ok()?, pb: p[5].parse().ok(), to: p[6].parse().ok()? })
+        Some(Cfg { prop: p[0].into(), pool: p[1].into(), workers: p[2].parse().ok()?, cap: p[3].parse().ok()?, batch: p[4].parse().ok()?, pb: p[5].parse().ok(), to: p[6].parse().ok()?, flt: p[7] == "1" })
     }
 }
 
@@ -251,7 +253,27 @@ fn c10_one(c: &Cfg) -> (usize, Vec<String>) {
             vec![data(a, 40000, 200, 443, 1001, &h1[..20]), data(b, 40001, 200, 443, 1001, &h2[..30]), data(a, 40000, 200, 443, 1021, &h1[20..50]), data(b, 40001, 200, 443, 1031, &h2[30..]), data(a, 40000, 200, 443, 1051, &h1[50..]), data(b, 40001, 200, 443, 9000, b"\x17\x03\x03\x00\x01x")]
         }
     };
-    // sequential reference on the same trace; empty results are not results
+    // the filter (when on) admits the first connection's client address only, in either direction
+    let flt = c.flt;
+    let addr_a = format!("{}.{}.{}.{}", trace[0][12], trace[0][13], trace[0][14], trace[0][15]);
+    let f_tcp = huginn_net_tcp::FilterConfig::new().mode(huginn_net_tcp::FilterMode::Allow).with_ip_filter(huginn_net_tcp::IpFilter::new().allow(&addr_a).expect("address"));
+    let f_http = huginn_net_http::FilterConfig::new().mode(huginn_net_http::FilterMode::Allow).with_ip_filter(huginn_net_http::IpFilter::new().allow(&addr_a).expect("address"));
+    let f_tls = huginn_net_tls::FilterConfig::new().mode(huginn_net_tls::FilterMode::Allow).with_ip_filter(huginn_net_tls::IpFilter::new().allow(&addr_a).expect("address"));
+    let full_trace = trace.clone();
+    let trace: Vec<Vec<u8>> = if !flt {
+        trace
+    } else {
+        trace
+            .into_iter()
+            .filter(|f| match pool_kind.as_str() {
+                "tcp" => huginn_net_tcp::raw_filter::apply(f, &f_tcp),
+                "http" => huginn_net_http::raw_filter::apply(f, &f_http),
+                _ => huginn_net_tls::raw_filter::apply(f, &f_tls),
+            })
+            .collect()
+    };
+    assert!(!flt || (trace.len() < full_trace.len() && !trace.is_empty()), "the filter must admit some but not all packets of the trace");
+    // sequential reference on the (admitted) trace; empty results are not results
     let seq: Vec<String> = match pool_kind.as_str() {
         "tcp" => {
             let mut a = drv::TcpSeq::new(None, 8);
@@ -266,14 +288,15 @@ fn c10_one(c: &Cfg) -> (usize, Vec<String>) {
             trace.iter().map(|f| a.feed(f)).filter(|r| !r.is_empty()).map(|r| format!("{r:?}")).collect()
         }
     };
-    assert!(seq.len() >= 2, "sequential reference yields {} results; harness would be vacuous", seq.len());
+    assert!(seq.len() >= if flt { 1 } else { 2 }, "sequential reference yields {} results; harness would be vacuous", seq.len());
     crate::shim::vchan::TIMEOUT_BUDGET.store(c.to, std::sync::atomic::Ordering::Relaxed);
+    let trace = full_trace;
     let n = model(c.pb, move || {
         let mut got: Vec<String> = vec![];
         match pool_kind.as_str() {
             "tcp" => {
                 let (tx, rx) = shim::vstd::sync::mpsc::channel();
-                let pool = tcp_parallel::WorkerPool::new(workers, cap, batch, 10, tx, None, 8, None).unwrap();
+                let pool = tcp_parallel::WorkerPool::new(workers, cap, batch, 10, tx, None, 8, if flt { Some(f_tcp.clone()) } else { None }).unwrap();
                 for f in &trace {
                     assert!(pool.dispatch(f.clone()) == tcp_parallel::DispatchResult::Queued, "queue overflow in a no-overflow harness");
                 }
@@ -287,7 +310,7 @@ fn c10_one(c: &Cfg) -> (usize, Vec<String>) {
             }
             "http" => {
                 let (tx, rx) = shim::vstd::sync::mpsc::channel();
-                let pool = http_parallel::WorkerPool::new(workers, cap, batch, 10, tx, None, 8, None).unwrap();
+                let pool = http_parallel::WorkerPool::new(workers, cap, batch, 10, tx, None, 8, if flt { Some(f_http.clone()) } else { None }).unwrap();
                 for f in &trace {
                     assert!(pool.dispatch(f.clone()) == http_parallel::DispatchResult::Queued, "queue overflow in a no-overflow harness");
                 }
@@ -301,7 +324,7 @@ fn c10_one(c: &Cfg) -> (usize, Vec<String>) {
             }
             _ => {
                 let (tx, rx) = shim::vstd::sync::mpsc::channel();
-                let pool = tls_parallel::WorkerPool::new(workers, cap, batch, 10, tx, 8, None).unwrap();
+                let pool = tls_parallel::WorkerPool::new(workers, cap, batch, 10, tx, 8, if flt { Some(f_tls.clone()) } else { None }).unwrap();
                 for f in &trace {
                     assert!(pool.dispatch(f.clone()) == tls_parallel::DispatchResult::Queued, "queue overflow in a no-overflow harness");
                 }
@@ -348,28 +371,42 @@ fn c10_one(c: &Cfg) -> (usize, Vec<String>) {
 fn configs(prop: &str, thorough: bool) -> Vec<Cfg> {
     let mut v = vec![];
     for pool in ["tcp", "http", "tls"] {
+        if prop == "C15" {
+            // the filtered pool only: every packet of every batch goes through the filter, whatever the schedule
+            for workers in [1usize, 2] {
+                for batch in [1usize, 2, 32] {
+                    v.push(Cfg { prop: prop.into(), pool: pool.into(), workers, cap: 8, batch, pb: Some(if thorough { 3 } else { 2 }), to: 0, flt: true });
+                }
+            }
+            v.push(Cfg { prop: prop.into(), pool: pool.into(), workers: 1, cap: 8, batch: 32, pb: Some(2), to: 1, flt: true });
+            continue;
+        }
         if prop == "C18" {
             // one worker: every capacity and batch size; two workers (packets spread over both queues): capacity x batch 1
             for cap in [0usize, 1, 2] {
                 for batch in [1usize, 32] {
-                    v.push(Cfg { prop: prop.into(), pool: pool.into(), workers: 1, cap, batch, pb: Some(if thorough { 3 } else { 2 }), to: 0 });
+                    v.push(Cfg { prop: prop.into(), pool: pool.into(), workers: 1, cap, batch, pb: Some(if thorough { 3 } else { 2 }), to: 0, flt: false });
                 }
-                v.push(Cfg { prop: prop.into(), pool: pool.into(), workers: 2, cap, batch: 1, pb: Some(if thorough { 2 } else { 1 }), to: 0 });
+                v.push(Cfg { prop: prop.into(), pool: pool.into(), workers: 2, cap, batch: 1, pb: Some(if thorough { 2 } else { 1 }), to: 0, flt: false });
                 // one Timeout answer per worker queue (the worker may run dry between the dispatchers' packets)
                 if cap == 1 || thorough {
-                    v.push(Cfg { prop: prop.into(), pool: pool.into(), workers: 1, cap, batch: 1, pb: Some(2), to: 1 });
+                    v.push(Cfg { prop: prop.into(), pool: pool.into(), workers: 1, cap, batch: 1, pb: Some(2), to: 1, flt: false });
                 }
             }
         } else {
             for workers in [1usize, 2, 3] {
                 for batch in [1usize, 2, 32] {
-                    v.push(Cfg { prop: prop.into(), pool: pool.into(), workers, cap: 8, batch, pb: Some(if thorough { 3 } else { 2 }), to: 0 });
+                    v.push(Cfg { prop: prop.into(), pool: pool.into(), workers, cap: 8, batch, pb: Some(if thorough { 3 } else { 2 }), to: 0, flt: false });
                     // the same with one (thorough: also two) Timeout answers per worker queue
                     if batch != 2 || thorough {
-                        v.push(Cfg { prop: prop.into(), pool: pool.into(), workers, cap: 8, batch, pb: Some(2), to: 1 });
+                        v.push(Cfg { prop: prop.into(), pool: pool.into(), workers, cap: 8, batch, pb: Some(2), to: 1, flt: false });
+                    }
+                    // with a packet filter on the pool (every packet of a batch must pass through it)
+                    if workers <= 2 && batch != 1 {
+                        v.push(Cfg { prop: prop.into(), pool: pool.into(), workers, cap: 8, batch, pb: Some(2), to: 0, flt: true });
                     }
                     if thorough && workers <= 2 {
-                        v.push(Cfg { prop: prop.into(), pool: pool.into(), workers, cap: 8, batch, pb: Some(2), to: 2 });
+                        v.push(Cfg { prop: prop.into(), pool: pool.into(), workers, cap: 8, batch, pb: Some(2), to: 2, flt: false });
                     }
                 }
             }
@@ -544,7 +581,7 @@ fn main() {
                     "distinct_nontrivial": distinct.len(),
                     "rule": "loom exploration of the repository's parallel.rs (path-rewritten at build time) for every configuration (pool x workers x queue capacity x batch) up to the preemption bound; states = configurations explored to completion, transitions = complete schedules executed, distinct = distinct (configuration, observed outcome) pairs (queued counts / result arrival orders)",
                     "exhaustive": true,
-                    "bounds": {"configurations": cfgs.iter().map(|c| c.to_s()).collect::<Vec<_>>(), "preemption_bound": "per configuration: last field of the configuration string"},
+                    "bounds": {"configurations": cfgs.iter().map(|c| c.to_s()).collect::<Vec<_>>(), "configuration_string": "property:pool:workers:queue capacity:batch:preemption bound:timeout budget:filter"},
                     "counters": {}, "samples": samples, "notes": []
                 },
                 "deviations": merged.values().cloned().collect::<Vec<_>>(),
